@@ -193,4 +193,6 @@ def run(ctx):
     ns = len(ctx.suite_names)
     rep.floor('R08.1', 'unified twin pairs', n_pairs, 4 * ns)
     rep.floor('R08.3', 'dummy records', n_dummy, 4 * ns)
+    from rules import profile
+    profile.check(ctx, rep, 'R08.P', ['slog_start', 'setup_new_with_key'])
     return rep
